@@ -92,9 +92,15 @@ class CallMixin:
         for k, v in kwargs.items():
             env[k] = v
         nd = len(a.defaults)
-        for p, d in zip(names[len(names) - nd:], a.defaults):
+        dvals = getattr(fv, "defaults", None)
+        for i, (p, d) in enumerate(zip(names[len(names) - nd:], a.defaults)):
             if p not in env:
-                env[p] = self.eval(d, fv.frame)
+                env[p] = dvals[i] if dvals is not None else self.eval(d, fv.frame)
+        if a.vararg is not None:
+            env[a.vararg.arg] = TupV(list(args[len(names):]))
+        for kwo, kd in zip(a.kwonlyargs, a.kw_defaults):
+            if kwo.arg not in env and kd is not None:
+                env[kwo.arg] = self.eval(kd, fv.frame)
         missing = [p for p in names if p not in env]
         if missing:
             raise RaiseSignal("TypeError", "lambda missing %s" % missing, node, frame)
@@ -304,6 +310,33 @@ class CallMixin:
                 vals = {"keys": [StrV(k) for k in self_val.items], "values": list(self_val.items.values()),
                         "items": [TupV([StrV(k), v]) for k, v in self_val.items.items()]}[m]
                 return ListV("lit", items=vals)
+            if m == "update":
+                new = dict(kwargs)
+                if args:
+                    a0 = self.force(args[0], frame, node)
+                    if isinstance(a0, DictV):
+                        new = dict(a0.items, **new)
+                    else:
+                        its = self.as_items(a0, frame, node)
+                        if its is None:
+                            raise Unmodelled("dict.update of a collection of unknown length at %s" % frame.loc(node))
+                        pairs = {}
+                        for it in its:
+                            kv = self.as_items(it, frame, node)
+                            k = kv[0] if kv and len(kv) == 2 else None
+                            if isinstance(k, StrV) and k.s is None:
+                                k = self.concretize_str(k, frame, node) or k
+                            if not (isinstance(k, StrV) and k.s is not None):
+                                raise Unmodelled("dict.update with a non-constant key at %s" % frame.loc(node))
+                            pairs[k.s] = kv[1]
+                        new = dict(pairs, **new)
+                self.ctx.event("item-store", (val_key(self_val), "update", None), frame.loc(node))
+                self_val.items.update(new)
+                return NONE
+            if m == "copy":
+                return DictV(dict(self_val.items))
+            if m == "setdefault" and isinstance(args[0], StrV) and args[0].s is not None:
+                return self_val.items.setdefault(args[0].s, args[1] if len(args) > 1 else NONE)
             raise Unmodelled("dict method %s at %s" % (m, frame.loc(node)))
         if d.startswith("str."):
             return Opaque("str." + d[4:])
@@ -428,6 +461,12 @@ class CallMixin:
                 return ListV("lit", items=list(a0.items)) if d == "builtins.list" else a0
             if isinstance(a0, Num):
                 return self.num_as_list(a0)
+            if d == "builtins.list" and isinstance(a0, ListV) and a0.kind in ("opaque", "fam", "rep", "concat", "slice"):
+                c = ListV(a0.kind)          # list(xs) is a NEW list with the same elements: growing it must not grow xs
+                c.__dict__.update(a0.__dict__)
+                if getattr(a0, "appended", None) is not None:
+                    c.appended = list(a0.appended)
+                return c
             return a0
         if d == "itertools.product" and args and not kwargs:
             cols = [self.as_items(self.force(a, frame, node), frame, node) for a in args]
@@ -442,7 +481,7 @@ class CallMixin:
                          factors=[self.force(a, frame, node) for a in args])
         if d in ("builtins.enumerate", "builtins.zip"):
             seqs = [self.force(a, frame, node) for a in args]
-            if all(self.as_items(q, frame, node) is not None for q in seqs if not isinstance(q, ObjV)) and not any(isinstance(q, ObjV) for q in seqs):
+            if all(self.as_items(q, frame, node) is not None for q in seqs if not (isinstance(q, ObjV) and not getattr(q.cls, "is_namedtuple", False))) and not any((isinstance(q, ObjV) and not getattr(q.cls, "is_namedtuple", False)) for q in seqs):
                 cols = [self.as_items(q, frame, node) for q in seqs]
                 nmin = min(len(c) for c in cols)
                 if d.endswith("enumerate"):
@@ -501,9 +540,74 @@ class CallMixin:
                         items[kv[0].s] = kv[1]
             items.update(kwargs)
             return DictV(items)
-        if d == "builtins.set":
+        if d in ("builtins.set", "builtins.frozenset"):
             a0 = self.force(args[0], frame, node) if args else ListV("lit", items=[])
+            if isinstance(a0, ListV) and a0.kind == "lit" and all(isinstance(x, (Num, StrV)) for x in a0.items) \
+                    and all((isinstance(x, Num) and x.r.is_const()) or (isinstance(x, StrV) and x.s is not None) for x in a0.items):
+                return ListV("lit", items=list(a0.items), is_set=True)   # a set of constants: the literal it was written as
             return ListV("opaque", path="set(%s)" % key_str(val_key(a0)), ty=ANY, is_set=True)
+        if d in ("operator.add", "operator.sub", "operator.mul", "operator.truediv", "operator.pow") and len(args) == 2 and not kwargs:
+            opn = {"add": ast.Add(), "sub": ast.Sub(), "mul": ast.Mult(), "truediv": ast.Div(), "pow": ast.Pow()}[d.split(".")[1]]
+            return self.binop(opn, args[0], args[1], frame, node)
+        if d == "functools.reduce" and len(args) in (2, 3) and not kwargs:
+            seq = self.force(args[1], frame, node)
+            items = self.as_items(seq, frame, node) if not (isinstance(seq, ObjV) and not getattr(seq.cls, "is_namedtuple", False)) else None
+            if items is not None:
+                # a fold over a literal collection is the chain of calls it abbreviates
+                items = list(items)
+                if len(args) == 3:
+                    acc = args[2]
+                elif items:
+                    acc = items.pop(0)
+                else:
+                    raise RaiseSignal("TypeError", "reduce() of empty iterable with no initial value", node, frame)
+                for x in items:
+                    acc = self.call_function(args[0], [acc, x], {}, frame, node)
+                return acc
+        if d == "functools.partial" and args:
+            fv = FuncV("ext", dotted="functools.partial()", self_val=(args[0], list(args[1:]), dict(kwargs)))
+            return fv
+        if d == "functools.partial()":
+            f0, pargs, pkw = self_val
+            return self.call_function(f0, list(pargs) + list(args), dict(pkw, **kwargs), frame, node)
+        if d == "builtins.reversed" and len(args) == 1 and not kwargs:
+            a0 = self.force(args[0], frame, node)
+            items = self.as_items(a0, frame, node) if not (isinstance(a0, ObjV) and not getattr(a0.cls, "is_namedtuple", False)) else None
+            if items is not None:
+                return ListV("lit", items=list(reversed(items)))
+        if d in ("operator.attrgetter", "operator.itemgetter") and args and not kwargs:
+            keys = [self.resolve_maybe(a) for a in args]
+            if d.endswith("attrgetter") and not all(isinstance(k, StrV) and k.s is not None for k in keys):
+                raise Unmodelled("attrgetter of a non-constant name at %s" % frame.loc(node))
+            return FuncV("ext", dotted=d + "()", self_val=keys)
+        if d in ("operator.attrgetter()", "operator.itemgetter()") and len(args) == 1 and not kwargs:
+            vals = []
+            for k in self_val:
+                if d.startswith("operator.attrgetter"):
+                    v = args[0]
+                    for part in k.s.split("."):
+                        v = self.getattr(v, part, frame, node)
+                else:
+                    v = self.index(self.force(args[0], frame, node), k, frame, node)
+                vals.append(v)
+            return vals[0] if len(vals) == 1 else TupV(vals)
+        if d == "builtins.map" and len(args) >= 2 and not kwargs:
+            # map(f, xs, ...) is the comprehension [f(x, ...) for x, ... in zip(xs, ...)]
+            seqs = [self.force(a, frame, node) for a in args[1:]]
+            if not any((isinstance(q, ObjV) and not getattr(q.cls, "is_namedtuple", False)) for q in seqs) and all(self.as_items(q, frame, node) is not None for q in seqs):
+                cols = [self.as_items(q, frame, node) for q in seqs]
+                return ListV("lit", items=[self.call_function(args[0], [c[i] for c in cols], {}, frame, node) for i in range(min(len(c) for c in cols))])
+            if len(seqs) != 1:
+                raise Unmodelled("map over several sequences of unknown length at %s" % frame.loc(node))
+            lo, hi, idx, elem = self.iter_family(seqs[0], frame, node)
+            try:
+                val = self.call_function(args[0], [elem], {}, frame, node)
+            finally:
+                self.release_bound()
+            out = ListV("fam", idx=idx, lo=lo, hi=hi, elem=val)
+            if isinstance(seqs[0], ListV) and seqs[0].kind == "series":
+                out.over_series = seqs[0]
+            return out
         if d == "builtins.filter":
             base = self.force(args[1], frame, node)
             lo, hi, idx, elem = self.iter_family(base, frame, node, prefix="#f")
@@ -625,6 +729,20 @@ class CallMixin:
             if lst.kind == "lit":
                 return ListV("lit", items=list(lst.items))
             return lst
+        if m == "extend" and len(args) == 1 and lst.kind != "series":
+            other = self.force(args[0], frame, node)
+            items = self.as_items(other, frame, node) if not (isinstance(other, ObjV) and not getattr(other.cls, "is_namedtuple", False)) else None
+            if lst.kind == "lit" and items is not None:
+                lst.items.extend(items)
+                return NONE
+            if isinstance(other, ListV):
+                # the list object itself becomes (what it was) + (the extension); aliases of it see the same change
+                old = ListV(lst.kind)
+                old.__dict__.update(lst.__dict__)
+                lst.__dict__.clear()
+                lst.kind = "concat"
+                lst.parts = [old, other]
+                return NONE
         raise Unmodelled("list method %s at %s" % (m, frame.loc(node)))
 
 
